@@ -138,6 +138,13 @@ func (g *G) extraInt(d int) *Node {
 		if ds := g.Env.OfType(TDict); len(ds) > 0 {
 			v := ds[g.intn(len(ds), "asgDictVar")]
 			k := []string{"x", "y", "z", "hp"}[g.intn(4, "asgKey")]
+			if g.O.SingleKeyDicts {
+				// a second key would make every text that prints the dict depend on Go map order
+				if len(v.Keys) == 0 || !isPlainIdent(v.Keys[0]) {
+					return nil
+				}
+				k = v.Keys[0]
+			}
 			if g.intn(2, "asgAttr") == 0 {
 				return &Node{K: "setattr", S: v.Name, Names: []string{k}, Kids: []*Node{g.intExpr(d - 1)}}
 			}
@@ -234,7 +241,30 @@ func (g *G) extraTmpl(d int) *Node {
 
 // extraStmt returns a statement (group) of one of the extra kinds.
 func (g *G) extraStmt(d int) []*Node {
-	switch g.intn(10, "extraStmtKind") {
+	switch g.intn(11, "extraStmtKind") {
+	case 10:
+		// variable lookup goes through the caller chain: `reader` reads a name that its caller
+		// `outer` holds as a local (shadowing the top-level variable of the same name, if any)
+		if g.inFunc || g.funcs >= 3 {
+			return []*Node{g.assignStmt(d)}
+		}
+		g.funcs += 2
+		shared := g.FreshName()
+		if vs := g.intVarsHere(); len(vs) > 0 && g.intn(2, "scopeShadow") == 0 {
+			if v := vs[g.intn(len(vs), "scopeVar")]; !g.reserved[v.Name] {
+				shared = v.Name
+			}
+		}
+		reader, outer, p := g.FreshName(), g.FreshName(), g.FreshName()
+		g.Env.Put(&VarInfo{Name: reader, T: TAny, Len: -1})
+		g.Env.Put(&VarInfo{Name: outer, T: TFunc, Arity: 1, Ret: TInt, Len: -1})
+		rbody := Block(N("ret", Bin("+", g.orDefault(Var(shared)), Int(int64(g.intn(5, "scopeK"))))))
+		obody := Block(Set(shared, Bin("*", Var(p), Int(int64(2+g.intn(3, "scopeM"))))), N("ret", Bin("+", Call(Var(reader)), Var(shared))))
+		return []*Node{
+			&Node{K: "func", S: reader, Kids: []*Node{rbody}},
+			&Node{K: "func", S: outer, Names: []string{p}, Kids: []*Node{obody}},
+			N("arr", Call(Var(outer), g.smallArg(d-1)), Call(Var(reader))),
+		}
 	case 0:
 		// nested array and an alias of one of its rows
 		name := g.FreshName()
@@ -283,7 +313,7 @@ func (g *G) extraStmt(d int) []*Node {
 			}
 			k = v.Keys[0]
 		}
-		return []*Node{Set(al, Var(v.Name)),&Node{K: "setattr", S: al, Names: []string{k}, Kids: []*Node{g.intExpr(d - 1)}}}
+		return []*Node{Set(al, Var(v.Name)), &Node{K: "setattr", S: al, Names: []string{k}, Kids: []*Node{g.intExpr(d - 1)}}}
 	case 4, 5:
 		// a function put into a container
 		fs := g.Env.OfType(TFunc)
